@@ -34,7 +34,7 @@ never compared by text).
 -/
 import CtyModel.Refine
 import CtyModel.NumText
-import CtyModel.ConvertNum
+import CtyModel.JsonNum
 namespace CtyModel
 namespace Convert
 
@@ -478,6 +478,17 @@ def prepareUnknownResult (src : Refine.ValueRange) (target : Ty) : Res Value :=
         Refine.refine ret (lower ++ [.lenUpper hi])
     else .ok ret
 
+/-- `cty.ParseNumberVal(s)`: `Num.parse512` (JsonNum.lean), preceded by the one check of
+math/big's `scanExponent` that `parse512` leaves out — the exponent digits go
+through `strconv.ParseInt(…, 10, 64)`, so an exponent outside the int64 range is an
+error whatever the mantissa is ("0e99999999999999999999" is not a number). -/
+def parseNumber (s : String) : Res Num :=
+  match Num.scanLit s with
+  | some l =>
+    if l.exp > 9223372036854775807 ∨ l.exp < -9223372036854775808 then .err "exponent out of range"
+    else Num.parse512 s
+  | none => Num.parse512 s
+
 /-! ## The closure bodies -/
 
 abbrev Rec := Plan → Value → Res Value
@@ -601,7 +612,7 @@ def applyStep (E : Env) (rec : Rec) : Plan → Value → Res Value
     | _ => .panic "True"
   | .strToNum, v =>
     match v.v with
-    | .s s => (Num.parse512 s).map fun x => ⟨.number, .n x⟩
+    | .s s => (parseNumber s).map fun x => ⟨.number, .n x⟩
     | _ => .panic "AsString"
   | .strToBool, v =>
     match v.v with
